@@ -10,6 +10,7 @@ pub mod c12;
 pub mod c13;
 pub mod c14;
 pub mod c15;
+pub mod c16;
 pub mod c17;
 pub mod c18;
 pub mod c19;
@@ -31,6 +32,7 @@ pub fn get(id: &str) -> Option<Box<dyn Prop>> {
     "C13" => Some(Box::new(c13::C13)),
     "C14" => Some(Box::new(c14::C14)),
     "C15" => Some(Box::new(c15::C15)),
+    "C16" => Some(Box::new(c16::C16)),
     "C17" => Some(Box::new(c17::C17)),
     "C18" => Some(Box::new(c18::C18)),
     "C19" => Some(Box::new(c19::C19)),
